@@ -1346,7 +1346,7 @@ func (sg *schemaGenContext) buildAdditionalProperties() error {
 		sg.GenSchema.AdditionalProperties.ValueExpression = sg.GenSchema.ValueExpression + "[" + comprop.KeyVar + "]"
 
 		// rewrite value expression for arrays and arrays of arrays in maps (rendered as map[string][][]...)
-		if sg.GenSchema.AdditionalProperties.IsArray {
+		if sg.GenSchema.AdditionalProperties.IsArray && sg.GenSchema.AdditionalProperties.Items != nil {
 			// maps of slices are where an override may take effect
 			sg.GenSchema.AdditionalProperties.Items.IsMapNullOverride = sg.GenSchema.AdditionalProperties.IsMapNullOverride
 			sg.GenSchema.AdditionalProperties.Items.ValueExpression = sg.GenSchema.ValueExpression + "[" + comprop.KeyVar + "]" + "[" + sg.GenSchema.AdditionalProperties.IndexVar + "]"
